@@ -721,6 +721,11 @@ class Interp:
                 c = None if to not in INT_BITS else c
             frm = rv.get("from")
             nt = nbytes(to)
+            nf_ = nbytes(frm)
+            if nt is not None and nf_ is not None and nf_ < nt and not (len(v) > 4 and v[4] is not None and len(v[4]) == nf_):
+                # widening of a value without byte lanes: its bytes stay in the low lanes, the new high lanes are zero
+                # (unsigned source) or copies of the sign (signed source)
+                return SL(c, to, [v[2]] * nf_ + [v[2] if frm in SIGNED else E] * (nt - nf_))
             if nt is not None and len(v) > 4 and v[4] is not None and nbytes(frm) == len(v[4]):
                 li = list(v[4])
                 if nt <= len(li):
